@@ -123,12 +123,21 @@ def specObs (dspec : D Document) (o : Opts) (m : Mode) (vc : Bool) : Option Obs 
 /-- per-property verdicts for a successful generation on both sides. -/
 def evalProp (p : String) (y : Y) (d : Document) (o : Opts) (m : Mode) (vc : Bool) (oi om : Obs) : Option Verdict :=
   match p with
+  | "C07" =>
+    match generate d o m vc C07.escapePathSpec with
+    | .ok out =>
+      let os := Obs.ofOutputs out
+      some (projVerdict (C07.pathsOf oi == C07.pathsOf os) (C07.pathsOf om == C07.pathsOf os) (C07.pathsOf oi) (C07.pathsOf om))
+    | .error _ => some { holdsImpl := false, holdsModel := false, projEqual := C07.pathsOf oi == C07.pathsOf om,
+                         why := "the declarative expansion fails where the implementation succeeded" }
   | "C08" => some (projVerdict true true (C08.proj oi) (C08.proj om))
   | "C14" =>
     match specObs (C14.specParse y) o m vc with
     | some os => some (projVerdict (C14.proj oi == C14.proj os) (C14.proj om == C14.proj os) (C14.proj oi) (C14.proj om))
     | none => some { holdsImpl := false, holdsModel := false, projEqual := C14.proj oi == C14.proj om, why := "spec variant did not generate" }
   | "C06" => some (projVerdict true true (C06m.proj oi) (C06m.proj om))
+  | "C17" => some (projVerdict (C17.holds d o m oi) (C17.holds d o m om) (C17.proj oi) (C17.proj om))
+  | "C18" => some (projVerdict (C18.holds d oi) (C18.holds d om) (C18.proj oi) (C18.proj om))
   | "C12" => some (projVerdict (C12.holds d o oi) (C12.holds d o om) (C12.proj oi) (C12.proj om))
   | "C13" => some (projVerdict (C13.holds d oi) (C13.holds d om) (C13.proj oi) (C13.proj om))
   | _ => none
@@ -276,7 +285,8 @@ def handleFiles (req : Json) : Json :=
             | none => ""
       Json.mkObj (base ++ [("model_outcome", js "ok"), ("outcome_agree", jb (implOutcome == "ok")),
         ("files_equal", jb filesEq), ("stdout_equal", jb stdoutEq), ("diff", js diff),
-        ("model_paths", Json.arr (mf.map fun x => js x.1).toArray)])
+        ("model_paths", Json.arr (mf.map fun x => js x.1).toArray),
+        ("unequal", Json.arr ((mf.filter fun x => !(imf.contains x)).map fun x => js x.1).toArray)])
 
 def handle (req : Json) : Json :=
   match getStr req "op" with
